@@ -165,6 +165,127 @@ def harness_namespace():
     return ns
 
 
+
+# ---------------------------------------------------------------------------
+# E2: constants symbolic
+
+
+class _TagMeasurements:
+    def __init__(self, tag):
+        self.tag = tag
+
+    def get_expectation_values(self, op):
+        from orquestra.quantum.measurements import ExpectationValues
+
+        return ExpectationValues(np.array([float(self.tag)]), [np.array([[1.0]])], [np.array([[0.0]])])
+
+
+class _TagRunner:
+    def run_batch_and_measure(self, circuits, shots):
+        return [_TagMeasurements(c) for c in circuits]
+
+
+def _const_tasks(kinds, coeff):
+    """kinds: 'K' constant operator as a bare term, 'S' constant operator as a one-term sum, 'Z' non-constant zero-shot,
+    'M' measurable (tag), 'k' constant operator with zero shots; coeff(i) gives the coefficient used by task i"""
+    from orquestra.quantum.api.estimation import EstimationTask
+    from orquestra.quantum.operators import PauliTerm, PauliSum
+
+    tasks = []
+    for i, k in enumerate(kinds):
+        if k == "K":
+            tasks.append(EstimationTask(PauliTerm({}, coeff(i)), 100 + i, 5 + i))
+        elif k == "S":
+            tasks.append(EstimationTask(PauliSum([PauliTerm({}, coeff(i))]), 100 + i, 5 + i))
+        elif k == "k":
+            tasks.append(EstimationTask(PauliSum([PauliTerm({}, coeff(i))]), 100 + i, 0))
+        elif k == "Z":
+            tasks.append(EstimationTask(PauliSum([PauliTerm({}, coeff(i)), PauliTerm({0: "Z"}, 2.0)]), 100 + i, 0))
+        else:
+            tasks.append(EstimationTask(PauliTerm({0: "Z"}, 2.0), 100 + i, 5 + i))
+    return tasks
+
+
+def _w_const(res, p):
+    """estimate_expectation_values_by_averaging on task lists whose constants are symbolic reals: a constant task yields
+    EXACTLY its constant, a zero-shot non-constant task yields 0, a measurable task the runner's tag - on every path."""
+    import numpy
+    import z3
+    from .. import symtrace as ST
+    from orquestra.quantum.estimation import _estimation as ES
+    from orquestra.quantum.operators import _pauli_operators as PO
+
+    kinds = p["kinds"]
+    names = {f"k{i}": z3.Real(f"k{i}") for i, k in enumerate(kinds) if k in "KSkZ"}
+    base = [z3.And(z <= 8, z >= -8) for z in names.values()]
+    records = []
+    res.nontrivial()
+
+    def fn(ex):
+        tasks = _const_tasks(kinds, lambda i: ST.CV(ST.SV(names[f"k{i}"]), 0) if p.get("complex_typed") else ST.SV(names[f"k{i}"]))
+        out = ES.estimate_expectation_values_by_averaging(_TagRunner(), tasks)
+        if len(out) != len(kinds):
+            records.append(("one-result-per-task", "violated", None))
+            return out
+        for i, k in enumerate(kinds):
+            vals = list(out[i].values)
+            if len(vals) != 1:
+                records.append((f"task{i}-single-value", "violated", None))
+                continue
+            v = vals[0]
+            if k in "KSk":
+                d = ST.CV.lift(v - ST.SV(names[f"k{i}"]))
+                records.append((f"constant-task-yields-its-constant#{i}",) + ex.prove(z3.And(ST.zr_real(d.re) == 0, ST.zr_real(d.im) == 0)))
+            elif k == "Z":
+                d = ST.CV.lift(v)
+                records.append((f"zero-shot-task-yields-zero#{i}",) + ex.prove(z3.And(ST.zr_real(d.re) == 0, ST.zr_real(d.im) == 0)))
+            else:
+                records.append((f"measured-task-in-place#{i}",) + ex.prove(z3.BoolVal(bool(not ST.is_sym(v) and float(v) == 100.0 + i))))
+        return out
+
+    with ST.patched((PO, "np", ST.NpProxy(numpy)), (PO, "float", ST.float_shadow), (PO, "complex", ST.complex_shadow), (ES, "np", ST.NpProxy(numpy))):
+        ex = ST.Explorer(base=base, timeout_ms=8000, max_paths=200)
+        outs = ex.run(fn)
+    res.d["paths"] += ex.npaths
+    res.d["solver_queries"] += ex.queries
+    res.d["solver_s"] += ex.solver_s
+    for o in outs:
+        if o[0] == "exc":
+            res.ob(1)
+            vals = {k: ST.model_value(o[2], z) for k, z in names.items()} if len(o) > 2 and o[2] is not None else {}
+            res.candidate("raises", f"{p['label']}: raised {type(o[1]).__name__}: {str(o[1])[:120]}", dict(p, clause="raises", values=vals), sub="raises")
+    for clause, v, m in records:
+        res.ob(1)
+        if v == "holds":
+            res.ob(0, 1, "A:z3")
+        elif v == "violated":
+            vals = {k: ST.model_value(m, z) for k, z in names.items()} if m is not None else {}
+            res.candidate(clause.split("#")[0], f"{p['label']}: {clause} fails", dict(p, clause=clause.split("#")[0], values=vals), sub=clause)
+        else:
+            res.inconc("z3 unknown", clause)
+    res.sample({"constant tasks": p["label"], "paths": ex.npaths})
+
+
+def const_replay(p, clause, vals):
+    from orquestra.quantum.estimation import estimate_expectation_values_by_averaging
+
+    kinds = p["kinds"]
+    cs = {i: float(vals.get(f"k{i}", 0.5)) for i in range(len(kinds))}
+    tasks = _const_tasks(kinds, lambda i: complex(cs[i], 0.0) if p.get("complex_typed") else cs[i])
+    try:
+        out = estimate_expectation_values_by_averaging(_TagRunner(), tasks)
+    except Exception as e:
+        return clause == "raises", f"raised {type(e).__name__}: {e}"
+    if len(out) != len(kinds):
+        return True, f"{len(out)} results for {len(kinds)} tasks"
+    bad = []
+    for i, k in enumerate(kinds):
+        v = list(out[i].values)
+        want = cs[i] if k in "KSk" else 0.0 if k == "Z" else 100.0 + i
+        if len(v) != 1 or complex(v[0]) != complex(want):
+            bad.append(f"task {i} ({k}): {v} want exactly {want!r}")
+    return bool(bad), "; ".join(bad)[:300] or "ok"
+
 # ---------------------------------------------------------------------------
 
 
@@ -227,12 +348,21 @@ def exact_ground_bad(spec, terms):
     n = c.n_qubits
     op = PauliSum([PauliTerm({int(q): l for q, l in ops.items()}, coef) for ops, coef in terms])
     sim = SymbolicSimulator()
-    got = calculate_exact_expectation_values(sim, [EstimationTask(op, c, None)])[0].values[0]
     U = CS.np_oracle_unitary(c.operations, n, {})
     psi = U[:, 0]
     Mop = PL.dense(PL.cmap_of(op), n)
     want = (psi.conj() @ Mop @ psi).real
-    return None if abs(got - want) < 1e-9 else f"exact expectation {got} vs quadratic form {want}"
+    const = PauliSum([PauliTerm({}, -3.25)])
+    # the shot count of a task plays no part in an exact value; constant tasks may sit anywhere in the list
+    tasks = [EstimationTask(op, c, None), EstimationTask(const, c, 4), EstimationTask(op, c, 0), EstimationTask(op, c, 1), EstimationTask(const, c, 0), EstimationTask(op, c, 100)]
+    got = calculate_exact_expectation_values(sim, tasks)
+    if len(got) != len(tasks):
+        return f"{len(got)} results for {len(tasks)} tasks"
+    for i, (t, g) in enumerate(zip(tasks, got)):
+        w = -3.25 if t.operator is const else want
+        if len(g.values) != 1 or abs(g.values[0] - w) > 1e-9:
+            return f"exact expectation of task {i} (shots={t.number_of_shots}) is {g.values} vs quadratic form {w}"
+    return None
 
 
 def work(item):
@@ -243,6 +373,15 @@ def work(item):
             from .c10 import _w_freq
 
             _w_freq(res, p)
+            return res.as_dict()
+        if kind == "const":
+            from .. import symtrace as ST
+
+            try:
+                _w_const(res, p)
+            except ST.Inconclusive as e:
+                res.ob(1)
+                res.inconc(str(e))
             return res.as_dict()
         res.d["ground_instances"] += 1
         res.d["instances"] -= 1
@@ -301,6 +440,13 @@ def run(ctx):
         for i in range(2**w):
             for marked in ([list(s) for r in range(w + 1) for s in itertools.combinations(range(w), r)] if w < 3 or ctx.tier == "thorough" else [[0], [0, 2], [0, 1, 2]]):
                 items.append(("freq1", {"width": w, "marked": marked, "subset": [i], "label": f"all shots on basis state {i:0{w}b}, marked={marked}"}))
+    # E2: constants symbolic (every real in [-8, 8], tiny ones included)
+    kind_lists = ["K", "S", "k", "Z", "KM", "MS", "ZKM", "MkZS", "SSK", "ZZ", "kMK"] + (["KSkZM", "MZMK", "SkSk"] if ctx.tier == "thorough" else [])
+    for kl in kind_lists:
+        for ct in (False, True):
+            if ct and len(kl) > 2 and ctx.tier == "quick":
+                continue
+            items.append(("const", {"kinds": kl, "complex_typed": ct, "label": f"task kinds {kl}{' (complex-typed constants)' if ct else ''}"}))
     for bits in ([1, 0], [0, 1, 1], [1, 1, 0, 1], [0, 0]):
         terms = [[[0], 2.0], [[0, len(bits) - 1], -0.5], [[len(bits) - 1], 1.25]]
         for shots in (1, 5, 40):
@@ -320,7 +466,7 @@ def run(ctx):
         ctx.merge(out)
     ctx.bounds = {
         "crosshair": "task lists of <= 4 tasks, the kind of each task (measurable / constant / zero-shot with identity part / constant with zero shots / measurable sum with identity part) a symbolic choice; per-condition timeout %ds" % tmo,
-        "e2": "all shots on one basis state of width <= 3 with a symbolic shot count n >= 1",
+        "e2": "all shots on one basis state of width <= 3 with a symbolic shot count n >= 1; task lists of <= 4 (thorough 5) tasks over the kinds constant term / constant one-term sum / constant with zero shots / non-constant zero-shot / measurable, every constant a symbolic real in [-8, 8]",
         "ground": "full pipeline on SymbolicSimulator for 4 basis states x 3 shot counts; exact expectation vs dense quadratic form for 3 circuits",
     }
     ctx.assume("runner and measurement objects are tagging stubs in the CrossHair harness", "calculate_exact_expectation_values goes through scipy.sparse: ground instances only")
@@ -346,6 +492,8 @@ def replay(data):
             from . import c10
 
             return c10.replay(data)
+        if "kinds" in inp:
+            return const_replay({k: v for k, v in inp.items() if k not in ("clause", "values")}, inp["clause"], inp.get("values") or {})
         if inp["clause"] == "basis":
             bad = basis_ground_bad(inp["bits"], [tuple(t) for t in inp["terms"]], inp["shots"])
         else:
